@@ -861,6 +861,10 @@ MUTANTS = [
            lambda f, t: replace_expr(f, lambda e: isinstance(e, ast.Compare) and u(e) == "v.itemsize != 1", "v.itemsize == 2")),
     Mutant("C06", "correlation-id-never-sent", "C06-R2", P, "SendingMessage.__init__",
            lambda f, t: set_test(f, lambda e: u(e) == "current_context.correlation_id", "False"), also=("C12",)),
+    Mutant("C10", "orphaned-stream-never-adopted", "C10-R4", S, "DaemonObject.get_next_stream_item",
+           lambda f, t: set_test(f, lambda e: u(e) == "client is None", "False")),
+    Mutant("C10", "every-fetch-adopts-the-stream", "C10-R4", S, "DaemonObject.get_next_stream_item",
+           lambda f, t: set_test(f, lambda e: u(e) == "client is None", "True")),
     Mutant("C18", "communication-timeout-set-by-the-worker", "C18-R3", ST, "SocketServer_Threadpool.events",
            lambda f, t: (delete_stmt(f, lambda s: isinstance(s, ast.If) and "COMMTIMEOUT" in u(s.test)),
                          find_fn(t, "ClientConnectionJob.__call__").body.insert(0, stmts("if config.COMMTIMEOUT:\n    self.csock.timeout = config.COMMTIMEOUT")[0])), also=("C05",)),
